@@ -221,11 +221,11 @@ func TestC20(t *testing.T) {
 			"in the same process one after the other, and in fresh processes with different GOMAXPROCS, TMPDIR (pre-filled with junk), TZ and LANG, plus (fault) an unwritable TMPDIR; every block's inputs (time, tx bytes) and outputs (code, codespace, log, gas, data, events of every tx, app hash) are digested and the streams compared. One evaluation = one block compared between two executions; distinct = distinct (history, block) pairs")
 	rec.Require("blocks-compared", "fresh-process-replays", "eth-real-seal-blocks")
 	seed := mon.Seed()
-	nHist := mon.Scale(4, 40)
+	nHist := mon.Scale(4, 24)
 	if v, err := strconv.Atoi(os.Getenv("VERIF_C20_N")); err == nil && v > 0 {
 		nHist = v
 	}
-	repeats := mon.Scale(2, 6)
+	repeats := mon.Scale(2, 4)
 	exe, _ := os.Executable()
 	tmpRoot, _ := os.MkdirTemp("", "c20-")
 	defer os.RemoveAll(tmpRoot)
@@ -318,7 +318,6 @@ func TestC20Race(t *testing.T) {
 		t.Skip("only run by run.sh in the race pass")
 	}
 	seed := mon.Seed()
-	ref := c20History(0, seed, true)
 	stop := make(chan struct{})
 	var wg sync.WaitGroup
 	var queries int64
@@ -342,7 +341,7 @@ func TestC20Race(t *testing.T) {
 							c.App.Query(context.Background(), &abci.RequestQuery{Path: "store/tibc/key", Data: []byte("Routing/Rules"), Prove: true})
 						}()
 						atomic.AddInt64(&queries, 1)
-						time.Sleep(200 * time.Microsecond)
+						time.Sleep(2 * time.Millisecond)
 					}
 				}(q)
 			}
@@ -352,6 +351,8 @@ func TestC20Race(t *testing.T) {
 	close(stop)
 	wg.Wait()
 	c20OnNet = nil
+	// the reference run needs no readers and no second ethash: compare everything but the real-seal block count
+	ref := c20History(0, seed, true)
 	k, what := firstDiff(ref, other)
 	fmt.Printf("RACE-PASS blocks=%d concurrent_queries=%d first_diff=%d %s\n", len(other), atomic.LoadInt64(&queries), k, what)
 	if what == "results" {
